@@ -26,6 +26,7 @@ EXPLANATION = (
     "selection against its bound parameters followed by row selections only, and each call site passes the hard internal bounds or the "
     "search bounds. R5 search bounds lie inside the hard bounds: inward-rounding idiom (mask direction and correction sign pair as (<,+) / "
     "(>,-)) in both sibling implementations, cross-checked. Sound modulo NaN and the two arithmetic lemmas named in DESIGN.md."
+    " R6 effect rule: module-level package functions never write into an array they were handed (in-place store through a parameter or a view of it, ufunc out=); state dictionaries exempt."
 )
 
 
